@@ -23,7 +23,7 @@ def main():
         r = kani_run.run_kani(s, gi['package'], [pre + '::' + h for h in names],
                               rustflags='--cfg force_bits="%d"' % a.word, timeout=a.timeout + 300,
                               harness_timeout=a.timeout, features=gi.get('features'),
-                              no_default_features=gi.get('no_default_features', False))
+                              no_default_features=gi.get('no_default_features', False), cbmc_args=gi.get('cbmc_args', ()))
         print('wall %.1fs rc=%s' % (r['wall_s'], r['returncode']))
         for k, v in sorted(r['harnesses'].items()):
             print('%-60s %-8s checks=%-4s cover=%s/%s t=%s' % (k.split('::')[-1], v['status'], v.get('checks'),
